@@ -28,7 +28,17 @@ def cli (j : Json) : Json :=
     else if noinput then
       (if printed == "" then (true, "") else (false, "output printed although no input file was given"))
     else if libErr != "" then
-      (if printed == "" then (true, "") else (false, s!"output printed although the library reports {libErr}"))
+      if printed != "" then (false, s!"output printed although the library reports {libErr}")
+      else
+        -- a load or run error is *reported*: the runner's error output names the library's error
+        -- (its first line: position and message)
+        let body := if libErr.startsWith "load-error: " then (libErr.drop 12).toString
+                    else if libErr.startsWith "run-error: " then (libErr.drop 11).toString else ""
+        let first := (body.splitOn "\n").headD ""
+        let shown := J.str (J.get j "stderr_head") ++ J.str (J.get j "stdout_tail")
+        if first != "" && !J.isNull (J.get j "stderr_head") && (shown.splitOn first).length < 2 then
+          (false, s!"the library reports '{first}' but the runner's output does not mention it: {(J.str (J.get j "stderr_head")).take 200}")
+        else (true, "")
     else
       let unsetTime := J.str (J.get j "type") == "text" && (lib.splitOn "1970-01-01T00:00:00Z").length + (if lib.trimAscii.toString.endsWith " 0" then 1 else 0) > 1
       if maskTime printed unsetTime == maskTime lib unsetTime then (true, "")
